@@ -743,7 +743,8 @@ def parse_model(model: str, *, check_syntax: bool = True) -> List[Symbol]:
                         # or that breaks when indented (a backslash
                         # continuation line) must fail here, not later
                         compile(
-                            'def _evaluate(self, t):\n'
+                            'def _evaluate(self, t, *, errors=None, '
+                            'catch_first_error=None, iteration=None, **kwargs):\n'
                             + textwrap.indent(e, '    ')
                             + '\n    pass',
                             '<string>',
